@@ -17,6 +17,7 @@ SPECIAL = {
     "notes4.lua": "print(debug.traceback, require, package.loaded, os.getenv, io.open, loadstring, setfenv, unpack)\n",
     "dupes.lua": "local t = { a = 1, a = 2, b = 3, b = 4, 5 }\nprint(t)\n",
     "argc.lua": "local function f(a, b) end\nf(1, 2, 3)\nf(1, 2, 3, 4)\nlocal g = function() end\ng(1)\n",
+    "argc2.lua": "local f\nf = function(a) end\nf = function(a, b) end\nf = function() end\nf(1, 2, 3)\nf(1, 2, 3, 4)\n",
     "multi.lua": "print(1) print(2) print(3)\nif x then print(1) end if y then print(2) end\n",
     "scopes.lua": "x = 1\ny = 2\nprint(x, y, z, w)\nlocal a = 1\nlocal a = 2\n",
     "roblox.lua": "print(game, workspace, script, Instance.new(\"Part\"), task.wait())\n",
@@ -52,7 +53,8 @@ class C12(Prop):
             "hash-backed lints) x 4 libraries x 2 configurations through one Arc<Checker>: each file twice in a row, random "
             "histories, 8 threads released together on cold caches, 8 threads then a warm pass; every call's full diagnostics list "
             "is compared with a fresh checker's. (b) process restarts: the real binary (json2, 4 threads) run repeatedly on a "
-            "directory of such files under 4 libraries; per-file output compared between runs. non-trivial = some file has "
+            "directory of such files under 6 configurations (4 libraries; two that name one lint in both spellings with different values); "
+            "per-file output compared between runs. non-trivial = some file has "
             "diagnostics; distinct = distinct (library, configuration, file set, mode)")
     trusted_base = [
         "translator vlib/translate.py:shared_sites (a regular-expression scan of selene-lib/src and selene/src for statics, interior "
